@@ -107,7 +107,8 @@ def subscriberAddr (d : Dir) (frame : Bytes) : Option Bytes :=
 
 /-- rate/burst found in value bytes -/
 def monOfBytes (v : Bytes) : Option Mon :=
-  (Bucket.decode v).map fun b => Mon.new b.rate.toNat b.burst.toNat
+  (Bucket.decode v).map fun b =>
+    { Mon.new b.rate.toNat b.burst.toNat with sTok := b.tokens.toNat, sLast := b.last.toNat }
 
 /-- parse the implementation's `k=<hex>:<h|m>` token -/
 def implKey (toks : List String) : Option (Bytes × Bool) :=
